@@ -114,6 +114,27 @@ def _gen_op(rng, name):
     raise ValueError(name)
 
 
+def _applicable(name, kind, order2):
+    if name == "split":
+        return kind in ("quad", "hex", "wedge") and not order2
+    if name == "extrude":
+        return kind in ("line", "tri") and not order2
+    if name in ("clean_unused", "clean_duplicate", "dirty_unused", "join",
+                "join_mixed"):
+        if order2:
+            return False
+        if name == "join_mixed":
+            return kind in ("tri", "quad", "tet", "hex")
+        return True
+    if name == "oriented":
+        return kind in ("line", "tri", "tet") and not order2
+    if name == "trace":
+        return kind in ("tri", "quad", "tet") and not order2
+    if name == "refine_adaptive":
+        return kind in ("line", "tri", "tet") or True   # unsupported kinds are probed too, rarely
+    return True
+
+
 def generate(prop, rng, tier):
     spec = OPS_BY_PROP[prop]
     cells = {"C12": ["line", "tri", "tri", "quad", "quad", "tet", "hex"],
@@ -131,7 +152,25 @@ def generate(prop, rng, tier):
     enabled = sorted(set(pool))
     drop = [n for n in enabled if rng.random() < 0.25]
     pool = [n for n in pool if n not in drop] or list(spec["pool"])
-    ops = [_gen_op(rng, rng.choice(pool)) for _ in range(nops)]
+    # choose operations that apply to the cell kind the history has at that
+    # point (tracked statically: split and extrude change it)
+    kind, o2 = cell, rec.get("order", 1) == 2
+    ops = []
+    for _ in range(nops):
+        for _try in range(8):
+            name = rng.choice(pool)
+            if _applicable(name, kind, o2):
+                break
+        else:
+            name = "tag_s"
+        o = _gen_op(rng, name)
+        if not o.get("discard_hint"):
+            pass
+        ops.append(o)
+        if name == "split" and kind in ("quad", "hex", "wedge") and not o2:
+            kind = "tri" if kind == "quad" else "tet"
+        elif name == "extrude" and kind in ("line", "tri") and not o2:
+            kind = "quad" if kind == "line" else "wedge"
     for o in ops:
         # branch: apply the operation, judge its result, then go on from the
         # PARENT mesh object (which has meanwhile been an operand and has
@@ -144,7 +183,15 @@ def generate(prop, rng, tier):
             o["warm"] = True      # touch the lazily built tables first
     # the property's own operation is always present, after some prefix
     pos = rng.randint(0, len(ops))
-    ops.insert(pos, _gen_op(rng, rng.choice(spec["must"])))
+    kpos, o2pos = cell, rec.get("order", 1) == 2
+    for o in ops[:pos]:
+        if o["op"] == "split" and kpos in ("quad", "hex", "wedge") and not o2pos:
+            kpos = "tri" if kpos == "quad" else "tet"
+        elif o["op"] == "extrude" and kpos in ("line", "tri") and not o2pos:
+            kpos = "quad" if kpos == "line" else "wedge"
+    musts = [n for n in spec["must"] if _applicable(n, kpos, o2pos)] \
+        or list(spec["must"])
+    ops.insert(pos, _gen_op(rng, rng.choice(musts)))
     # tags early so that they travel
     if rng.random() < 0.8:
         ops.insert(0, _gen_op(rng, "tag_s"))
